@@ -167,6 +167,25 @@ def run_c04(rep, tier, seed):
             rep.mismatch({"module": "hilbert", "field": "key"}, f"_hilbert3d({x},{y},{z},{b}) = {got}, Hilbert!Key = {want}", case={"kind": "key", "args": [x, y, z, b]}, module="hilbert")
         else:
             rep.validated()
+    # ---- 2a'. deep key spaces (beyond TLC's integers): the Python transcription of Hilbert!Key - which the keys above have just
+    # tied to TLC's values - is the oracle for 10 to 22 bits per axis (keys up to 2^66)
+    from .hilbert_py import key as pykey
+    if hfun is not None and all(pykey(x, y, z, b) == w_ for (x, y, z, b), w_ in zip(keys, ans["keys"]) if b > 0):
+        nd = 0
+        for bits in (10, 16, 20, 21, 22):
+            for _ in range(40 if tier == "quick" else 400):
+                x, y, z = (rng.randrange(2 ** bits) for _ in range(3))
+                rep.case(klass=("key-deep", bits, nd % 40))
+                nd += 1
+                try:
+                    got = int(hfun(x, y, z, bits))
+                except Exception as e:
+                    got = f"{type(e).__name__}: {e}"
+                want = pykey(x, y, z, bits)
+                if got != want:
+                    rep.mismatch({"module": "hilbert", "field": "key-deep"}, f"_hilbert3d({x},{y},{z},{bits}) = {got}, Hilbert!Key (Python transcription) = {want}", case={"kind": "key", "args": [x, y, z, bits]}, module="hilbert")
+                else:
+                    rep.validated()
     # ---- 2b. the list: must contain MustHave; equality with the transcription is recorded only
     neq = 0
     lfun = getattr(oh, "_get_cpu_list", None)
